@@ -330,3 +330,36 @@ def verdict_battery():
     b.append(Scenario(prog, S, layout=["Q", "P", "S", "R"], default_answer=["X", -1, (1 << 63) - 1, -(1 << 63)],
                       note="permutation"))
     return b
+
+
+# ------------------------------------------------------------------ C14 virtual signals
+
+def virtual_battery():
+    S = [("in", "A", 8, 0), ("out", "B", 8), ("out", "C", 8)]
+    b = []
+    b.append(Scenario("A B V\ndeclare V = B + 1;\n0 X 4\n1 X X\n", S, answers={1: [3, 0], 2: [9, 0]}, default_answer=[0, 0],
+                      expect={"row_outputs": [["3", "0", "4"], ["9", "0", "10"]], "row_expected": [["X", "X", "4"], ["X", "X", "X"]]},
+                      note="virtual value from the same row's outputs"))
+    b.append(Scenario("A B V\ndeclare V = B;\nlet B = 5;\n(B) X 3\n(B) X X\n", S, answers={1: [3, 0], 2: [4, 0]}, default_answer=[0, 0],
+                      expect={"row_outputs": [["3", "0", "3"], ["4", "0", "4"]], "row_inputs": [["5"], ["5"]]},
+                      note="program variable of the same name is invisible to the virtual signal"))
+    b.append(Scenario("A B V\ndeclare V = B;\nlet B = 5;\n(B) X X\n(B) X X\n(B) X X\n", S,
+                      answers={1: [3, 0], 2: ["Z", 0], 3: [4, 0]}, default_answer=[0, 0], stop_on_err=False,
+                      expect={"items": ["row", "err", "row"], "row_outputs": [["3", "0", "3"], ["4", "0", "4"]],
+                              "row_inputs": [["5"], ["5"]]},
+                      note="Z makes that row an error item; later rows unaffected"))
+    b.append(Scenario("A B C V\ndeclare V = B + C;\n0 X X X\n0 X X X\n0 X X X\n", S,
+                      answers={0: [2, 30], 1: [2, 30], 2: ["X", 30], 3: [1, 1]}, default_answer=[0, 0], stop_on_err=False,
+                      expect={"items": ["row", "err", "row"], "row_outputs": [["2", "30", "32"], ["1", "1", "2"]]},
+                      note="X after a concrete value is an error, not a stale value"))
+    b.append(Scenario("A V\ndeclare V = 0 - 8;\n0 (0-8)\n0 (~7)\n", S, default_answer=[0, 0],
+                      expect={"row_expected": [["X", "X", "-8"], ["X", "X", "-8"]], "row_outputs": [["0", "0", "-8"], ["0", "0", "-8"]]},
+                      note="negative expected value on a 64-bit virtual column"))
+    b.append(Scenario("A B\ndeclare V = B;\n0 X\n", S, default_answer=[7, 0],
+                      expect={"row_expected": [["X", "X", "X"]], "row_outputs": [["7", "0", "7"]]}, note="virtual signal without a column"))
+    b.append(Scenario("A B V W\ndeclare V = B;\ndeclare W = B * 2;\n0 X 1 2\n", S, default_answer=[1, 0],
+                      expect={"row_outputs_set": True}, note="two declarations"))
+    return b
+
+
+virtual_judge = literal_judge
